@@ -224,6 +224,14 @@ def step (proto : Proto) (digest : Src → Nat) (σ : State) : Event → State
 def exec (proto : Proto) (digest : Src → Nat) (σ : State) (tr : List Event) : State :=
   tr.foldl (step proto digest) σ
 
+/-- External cache wipe: `scripts/clear-cache.py` (or any `rm -rf` of the modules directory)
+run by another process.  The whole directory — shared entries and every build directory —
+is gone; processes and the `mkdtemp` counter are untouched. -/
+def State.wipe (σ : State) : State := { σ with dir := Dir.empty }
+
+/-- no request is in progress (the state *between* the requests of long-lived processes) -/
+def State.Quiescent (σ : State) : Prop := ∀ i, (σ.procs i).pc.live = false
+
 /-- `k` consecutive steps of process `i` -/
 def runs (i : Nat) (crash : Bool) (k : Nat) : List Event := List.replicate k (Event.run i crash)
 
